@@ -14,15 +14,14 @@ GLUE = ("Trusted: Coq kernel, extraction (ExtrOcamlBasic only), ocaml/driver.ml,
 
 CHECKS = {
  "C01": C("proof",
-   "Theorems coq/props/C01.v. PROVED END TO END for the fragment {append, batch append (empty batches and empty blocks included), get, has, info} from the creation of a writer, for every sequence of flush decisions: the observations of the model equal those of the append-only list model (get i = the i-th appended block or None; length = count; byte length = total size; contiguous length = count), reads touch neither core nor disk nor journal. The invariant (tree = reference tree with every full node found by lookup in the unflushed map or the tree store; bitfield = [0,n); data file = concatenation of the blocks) is established by creation and preserved by every append, including across flushes that move nodes to the store. Hypotheses, all satisfiable and exhibited by an Example: the hash returns 32 bytes and never 32 zero bytes (the crate treats an all-zero hash as a blank node; Refine.v shows the model failing without it), totals below 2^64; the only other outcome allowed is the crate's own panic for an oplog entry above 2^30 bytes. Also proved: storage semantics including delete, journal order of an append, byte offset = prefix sum. NOT yet proved: clears and close/reopen (proof files ClearRefine.v / Reopen.v in progress). Those parts are decided on every run by the model executed against the crate (observations and storage journals compared operation by operation) under the list-model oracle: corpus, bounded-exhaustive histories, random histories with clears and reopen after arbitrary prefixes, epoch histories with equal-sized entries, a core crossing 8192 and 32768 blocks.",
-   "DESIGN.md 6.1", GLUE, "Coq proof (refinement invariant preserved by every append, list-model equality of observations) + correspondence check + list-model oracle"),
+   "Theorems coq/props/C01.v, from the creation of a writer and for EVERY sequence of flush decisions. (A) Histories over {append, batch append (empty batches and empty blocks included), get, has, info, drop-and-reopen} observe exactly the append-only list model; reopening changes no observation and re-establishes the disk invariant (oplog file = header slots + entries, tree store, bitfield store, data store), also with unflushed entries pending (replay). (B) Histories over {append, batch append, clear(start<end, start<length, end possibly beyond the length), get, has, info} observe exactly the list-with-cleared-set model: nothing for cleared or never-written indices, clearing affects no block outside its range, contiguous length = smallest index not held. Hypotheses are satisfiable and exhibited by Examples: 32-byte hashes that are never all zero (the crate treats an all-zero hash as a blank node; the model fails without it), 64-byte signatures, 32-bit CRC, totals below 2^64; the only other outcome allowed is the crate's own panic for an oplog entry above 2^30 bytes. The proof attempt of (B) refuted the statement on the unrepaired crate (clear behind a stranded empty block failed); the witness was replayed on the crate and repaired (finding D24). NOT proved: histories mixing clears WITH reopen. Every run executes the model against the crate (observations and storage journals compared operation by operation) under the list-model oracle: corpus, bounded-exhaustive histories, random histories with clears and reopen after arbitrary prefixes, epoch histories, a core crossing 8192 and 32768 blocks.",
+   "DESIGN.md 6.1", GLUE, "Coq proof (refinement invariants for append/reopen and append/clear; list-model equality of observations) + correspondence check + list-model oracle"),
  "C02": C("proof",
    "Partial proof. Theorems coq/props/C02.v, at the level of the oplog file content and Oplog::open, assuming only that the CRC fits 32 bits: from any stable state (both header slots valid, or one invalid; entries carrying the current entry bit), for an append of one entry, for a flush (header into the non-current slot, then truncate) and for make_read_only (slot, truncate, slot, truncate), EVERY cut point of the operation's storage journal reopens to exactly the (header, entries) before the operation or exactly the one after it, and the final state is stable again, so the argument iterates over any history; entries of the previous epoch are never replayed and are cut off by open; in make_read_only the entries are gone before the second slot is rewritten (repaired defect D20, with the counterfactual); a crash during creation reopens as empty storage. With C08_replay_exact (bitfield and contiguous length replayed over any mixture of old and new pages) and C01_append_journal_order (data, then entry, then flush group, then header, then truncate). NOT proved: the tree and data stores and the composition with Hypercore::new over all four stores. That composition is decided on every run: every crash point (all journal prefixes, singleton and co-singleton subsets of the unordered flush group) of every generated history is recovered on the crate and on the model, judged by the before-or-after oracle and continued (append/clear, reopen, read everything).",
    "DESIGN.md 6.2", GLUE, "Coq proof (write-ahead-log argument on the oplog content) + crash-point enumeration on crate and model"),
- "C03": C("exploration",
-   "Replication worlds (writer growth, clears, replica reopen, full and partial upgrades, block/hash/seek requests built from the "
-   "replica's own missing-node query) run on crate and model; oracle: honest proof accepted, replica blocks byte-identical, lengths.",
-   "DESIGN.md 6.3", GLUE, "correspondence check + replication oracle"),
+ "C03": C("proof",
+   "Partial proof. Theorems coq/props/C03.v: every node of every proof the writer creates (block, hash, seek, upgrade, additional nodes) was read from the writer's own tree, with the tree's signature and fork (no fabrication); create_proof returns None exactly when the block is not held; for block requests whose node count comes from the replica's own missing-node query, on a replica no longer than the writer whose stored nodes carry the writer's hashes, the writer creates the proof and the replica's verifier accepts it with a commitable changeset containing the leaf and every sibling; honest inputs recompute the honest root; the missing-node count ends on a stored node or at the head; for an upgrade-only request from an empty replica over the whole log prover and verifier run in lockstep over the full roots and the verifier accepts when the signature verifies. NOT proved: upgrades of a non-empty replica, partial upgrades with additional nodes, block+upgrade, hash and seek sections, and the storage side of verify_and_apply_proof (byte offset of the stored block, replica reopen). All request classes are decided on every run by replication worlds (writer growth, clears, full and partial upgrades, block/hash/seek requests built from the replica's own missing-node query, replica reopen) on crate and model under the oracle that every honest proof is accepted and every held block is byte-identical to the writer's.",
+   "DESIGN.md 6.3", GLUE, "Coq proof (prover/verifier agreement for block and upgrade-only requests, no fabrication) + replication worlds with correspondence"),
  "C04": C("proof",
    "Theorems coq/props/C04.v, with NO assumption about the hash or signature functions (reduction style): if the verifier's climb ends in a hash equal to the trusted one (stored node or signed root), then the block VALUE it accepted is the writer's block, every sibling hash on the path is the writer's, a hash section's bottom hash is the writer's \u2014 or two different byte strings with the same BLAKE2b hash are exhibited; an accepted upgrade signature covers exactly (hash of the root list, length, fork) and equal signed messages bind length, fork and the root list (or a collision); structure of what verify_proof checked whenever it accepts. Sizes of the bottom nodes of hash/seek sections are bound only in sum (proved: parent_hash_length_split) \u2014 the property's carve-out. Partial: composition into the replica invariant across storage (byte offsets, files), refusal-is-a-no-op at the Core level (CoreFacts.v, in progress) and Ed25519 unforgeability are not proved; every single-field alteration and systematic forgery is applied to reachable replica states on crate and model on every run.",
    "DESIGN.md 6.4", GLUE, "Coq proof (hash-chain reduction to explicit collisions) + alteration enumeration with correspondence"),
